@@ -449,6 +449,11 @@ def rule_links(ctx, px):
     ctx.ob(R, m.rel, "Namespace(...) constructed only by the factory", ok, f"{sorted(set(ctors))}")
     # build_namespace_tree: every ancestor is indexed and linked to its parent
     bt = px.func(NS, "build_namespace_tree")
+    # steps of the builder that were moved into private module-level procedures are judged where they are called
+    import copy as _copy
+    bt_ = _copy.copy(bt)
+    bt_.node = pyfront.inline_procedures(bt.node, {k: v.node for k, v in m.funcs.items()})
+    bt = bt_
     _ancestors(ctx, R, m, bt, px)
     _linking(ctx, R, m, bt)
     # join discipline
@@ -525,6 +530,17 @@ def rule_links(ctx, px):
             raise AnalysisError(f"anchor missing: the generator Namespace.{pub} delegates to")
         call, over = deleg[0]
         g = ns_cls.methods[call.func.attr]
+        # a walker that only hands over to a shared, parametrised one (`return cls._walk(ns, with_types=True, ...)`) is that one,
+        # called with those arguments
+        for _hop in range(2):
+            body_ = [st_ for st_ in g.node.body if not (isinstance(st_, ast.Expr) and isinstance(st_.value, ast.Constant))]
+            v_ = body_[0].value if len(body_) == 1 and isinstance(body_[0], (ast.Return, ast.Expr)) else None
+            if isinstance(v_, ast.YieldFrom):
+                v_ = v_.value
+            if isinstance(v_, ast.Call) and isinstance(v_.func, ast.Attribute) and v_.func.attr in ns_cls.methods and v_.func.attr != g.name and over is None:
+                g, call = ns_cls.methods[v_.func.attr], v_
+            else:
+                break
         rec = [n for n in ast.walk(g.node) if isinstance(n, ast.YieldFrom) and isinstance(n.value, ast.Call) and getattr(n.value.func, "attr", "") == g.name]
         ok = bool(rec)
         if ok:
@@ -541,7 +557,7 @@ def rule_links(ctx, px):
         ctx.ob(R, m.rel, f"Namespace.{pub} :: its generator recurses into every nested namespace, unconditionally", ok, f"generator {g.short}", g.node.lineno)
         if over is None:
             # what the walker yields for this enumeration: own entries switched by constant flags of the public method only
-            _own_entries(ctx, R, m, pub, pf, g)
+            _own_entries(ctx, R, m, pub, pf, g, call)
         else:
             _own_entries_by_loop(ctx, R, m, pub, pf, g, over)
 
@@ -571,10 +587,11 @@ def _own_entries_by_loop(ctx, R, m, pub, pf, g, over):
            pf.node.lineno)
 
 
-def _own_entries(ctx, R, m, pub, pf, g):
+def _own_entries(ctx, R, m, pub, pf, g, call=None):
     """get_all_datatypes / get_all_types yield every nested type of every visited namespace, get_all_namespaces / get_all_types the namespace itself:
     in the walker each such yield is unconditional or guarded by a parameter for which this public method passes the constant True."""
-    call = [n.value for n in ast.walk(pf.node) if isinstance(n, ast.YieldFrom) and isinstance(n.value, ast.Call)][0]
+    if call is None:
+        call = [n.value for n in ast.walk(pf.node) if isinstance(n, ast.YieldFrom) and isinstance(n.value, ast.Call)][0]
     params = [a.arg for a in g.node.args.args]
     if params and params[0] in ("self", "cls"):
         params = params[1:]
@@ -716,6 +733,9 @@ def _ancestors(ctx, R, m, bt, px_=None):
         var = lp_.target.id
         src = _closure(lp_, [produced])
         sl = [s_ for e in src for s_ in ast.walk(e) if isinstance(s_, ast.Subscript) and isinstance(s_.slice, ast.Slice) and _is_components(fn, s_.value)[0]]
+        sl = [s_ for s_ in sl if not any(t_.value is s_ for t_ in sl)]       # name_components[:-1][:i]: the inner slice is the view being cut
+        measured = {id(c_.args[0]) for e in src for c_ in ast.walk(e) if isinstance(c_, ast.Call) and isinstance(c_.func, ast.Name) and c_.func.id == "len" and len(c_.args) == 1}
+        sl = [s_ for s_ in sl if id(s_) not in measured]                      # len(name_components[:-1]) in the range bounds is no ancestor name
         good_slice = bool(sl) and all((s_.slice.lower is None or (isinstance(s_.slice.lower, ast.Constant) and s_.slice.lower.value == 0))
                                       and isinstance(s_.slice.upper, ast.Name) and s_.slice.upper.id == var for s_ in sl)
         if not good_slice:
